@@ -361,7 +361,7 @@ fn run(args: &Args, rep: &mut Report) {
     let tier = args.tier;
     rep.assume("a CR inside a line is compared as LF whether it reaches the XML reader as LF (written literally, end-of-line normalisation) or as CR (written as a character reference)");
     rep.assume("underline presence/kind is read from style rules that do not also set text-decoration-color (the colour rule itself carries text-decoration-line: underline)");
-    rep.assume("the width of the background row (number of cells) is not part of the property and is not checked");
+    rep.assume("the background row is compared cell by cell on lines of printable ASCII (one cell per character under any width measure); on other lines, where the cell count depends on the width tables, only the sequence of fills is compared");
     let cap = tier.pick(16_000usize, 20_000);
     rep.add(
         "generated-documents",
